@@ -535,6 +535,13 @@ def s_vec_push(vm, st, callee, args, dest, ret_bb, m):
     return done(vm, st, dest, ret_bb, UNIT)
 
 
+def s_vec_extend_from_slice(vm, st, callee, args, dest, ret_bb, m):
+    v = vm.load(st, args[0])
+    more = tuple(vm.load(st, it) for it in slice_items(vm, st, args[1]))
+    vm.store(st, args[0], VecV(v.items + more))
+    return done(vm, st, dest, ret_bb, UNIT)
+
+
 def s_vec_len(vm, st, callee, args, dest, ret_bb, m):
     v = vm.load(st, args[0])
     return done(vm, st, dest, ret_bb, bv(len(v.items), 64))
@@ -1532,6 +1539,7 @@ TABLE = [
     (r'^(std::|alloc::)?slice::<impl \[&str\]>::concat::<str>$', s_str_concat),
     (r'^Vec::<.*>::(new|with_capacity)$', s_vec_new),
     (r'^Vec::<.*>::push$', s_vec_push),
+    (r'^Vec::<.*>::extend_from_slice$', s_vec_extend_from_slice),
     (r'^Vec::<.*>::len$', s_vec_len),
     (r'^Vec::<.*>::is_empty$', s_slice_is_empty),
     (r'^Vec::<.*>::as_slice$', s_vec_as_slice),
